@@ -651,6 +651,8 @@ fn mvn_suite(run: &Run) {
             ("pascal", super::lin::pascal(dim)),
             ("diag+rank1", (0..dim * dim).map(|t| if t / dim == t % dim { 3.0 + (t / dim) as f64 } else { 1.0 }).collect()),
             ("tridiag", super::lin::tridiag(dim, -1.0, 4.0, -1.0)),
+            // correlations of both signs whose sum is exactly zero (dimension >= 3)
+            ("balanced-signs", (0..dim * dim).map(|t| { let (i, j) = (t / dim, t % dim); if i == j { 3.0 + i as f64 } else if i.min(j) == 0 && i.max(j) % 2 == 1 && i.max(j) + 1 < dim.max(3) { 1.0 } else if i.min(j) == 0 && i.max(j) % 2 == 0 && i.max(j) >= 2 { -1.0 } else { 0.0 } }).collect()),
         ];
         // the same covariances at standard deviations of ~2e-3 and ~1e3 around means of ~1e3 (|mean|/sd up to 1e6)
         let covs: Vec<(String, Vec<f64>, f64)> = covs.into_iter().flat_map(|(n, c)| [1.0f64, 2e-3, 1e3, 0.0078125].into_iter().map(move |sc| (if sc == 1.0 { n.to_string() } else { format!("{}·{}²", n, sc) }, c.iter().map(|v| v * sc * sc).collect::<Vec<f64>>(), sc))).collect();
